@@ -1012,6 +1012,11 @@ def check_c19(tier, seed, log=print):
         '#[regex("[0-9]+", |lex| { let n: u8 = lex.slice().parse().ok()?; Some(n) })] A(u8),',
         '#[regex("[a-z]+", |lex| lex.slice().len() > 3)] A,',
         '#[regex("[0-9]+", |lex| lex.slice().parse::<u8>().ok())] A(u8),')]
+    # a concrete type that mentions another declared parameter (D18: the impl header has to be rewritten like the fields)
+    NHYG2 = len(HYG)
+    HYG += [F.HDR + '\n#[logos(type A = Vec<B>, type B = u8)]\npub enum T<A, B> {\n    #[regex("[a-z]+", |_| Vec::new())] X(A),\n    #[regex("[0-9]+", |_| 1u8)] Y(B),\n}',
+            F.HDR + '\n#[logos(type A = B, type B = u8)]\npub enum T<A, B> {\n    #[regex("[a-z]+", |_| 1u8)] X(A),\n    #[regex("[0-9]+", |_| 2u8)] Y(B),\n}',
+            F.HDR + '\n#[logos(type A = (B, C), type B = Vec<C>, type C = u8)]\npub enum T<A, B, C> {\n    #[regex("[a-z]+", |_| (Vec::new(), 1u8))] X(A),\n    #[regex("[0-9]+", |_| Vec::new())] Y(B),\n    #[token("=", |_| 1u8)] Z(C),\n}']
     # (a crate of their own: the malformed stream stops rustc before it checks types)
     per_h, other_h, rc_h, err_h = U.run_ui('ui19h', HYG)
     per, other, rc, err = U.run_ui('ui19', [cases[i]['src'] for i in ui_idx])
@@ -1021,7 +1026,9 @@ def check_c19(tier, seed, log=print):
             run.violation('does-not-compile', dict(definition=src_h, messages=msgs[:3], entry='rustc (stable) procedural macro, default (tail-call) code generator',
                                                    what=('the derive accepts the definition and the implementation it returns does not compile: the name of the callback is taken by an item of the generated code'
                                                          if HYG.index(src_h) < NHYG else
-                                                         'the derive accepts the definition and the implementation it returns does not compile: `return` / `?` in the body of an inline callback leave the generated function the body is pasted into, not the closure')),
+                                                         'the derive accepts the definition and the implementation it returns does not compile: `return` / `?` in the body of an inline callback leave the generated function the body is pasted into, not the closure'
+                                                         if HYG.index(src_h) < NHYG2 else
+                                                         'the derive accepts the definition and the implementation it returns does not compile: the concrete type of a type parameter mentions another declared parameter, which the impl header does not rewrite')),
                           key='uicompile|' + src_h)
     ui_panics = 0
     for i, msgs in zip(ui_idx, per):
